@@ -287,3 +287,23 @@ Definition unrel_frame (id no : N) (msg : bytes) : option mframe :=
 (* the (ghost) instance that would handle frame f in state m *)
 Definition handler_epoch (m : mux) (f : mframe) : option N :=
   match get_tube m (mf_rel f) (mf_id f) with Some t => Some (t_epoch t) | None => None end.
+
+(* ------------------------------------------------------------------ where the receive path could panic *)
+(* Muxer.receiver re-encodes a frame with frame.toBytes() (12 + len data bytes) and re-reads it with
+   fromInitiateBytes whenever the addressed tube is unknown, or the frame is a REQ/RESP.  fromInitiateBytes
+   slices b[10 : 10+dataLength] with the addition done in uint16; dataLength = len data (fromBytes).  A slice
+   expression panics unless low <= high <= len(b). *)
+Definition reencode_ok (f : mframe) : bool :=
+  let dl := len (mf_data f) in
+  let hi := (10 + dl) mod 65536 in
+  (10 <=? hi) && (hi <=? 12 + dl).
+Definition demux_res (m : mux) (f : mframe) : res mux :=
+  let reads_initiate :=
+    match get_tube m (mf_rel f) (mf_id f) with
+    | None => true
+    | Some _ => mf_req f || mf_resp f
+    end in
+  if reads_initiate && negb (reencode_ok f) then Panic else Ok (demux m f).
+(* the largest payload fromBytes can hand over: the muxer reads into a 65535-byte buffer and (repaired) fromBytes
+   refuses 12 + dataLength > len(b) *)
+Definition max_wire_payload : N := 65523.
